@@ -362,3 +362,198 @@ Proof.
   { destruct ev; simpl; rewrite moasha_metric_dict_mode_symmetry; reflexivity. }
   rewrite Hs, IH. reflexivity.
 Qed.
+
+(* ---- reporting layer: best trial per metric under per-metric mode lists ------------------------------------- *)
+Lemma nth_negate_vals mask : forall row i,
+  nth i (negate_vals mask row) 0 = if nth i mask false then - nth i row 0 else nth i row 0.
+Proof.
+  induction mask as [|b bs IH]; intros row i; simpl.
+  - destruct i; reflexivity.
+  - destruct row as [|v vs]; simpl.
+    + destruct i; simpl; [destruct b; reflexivity|]. destruct (nth i bs false); reflexivity.
+    + destruct i; simpl; [destruct b; reflexivity|apply IH].
+Qed.
+
+Lemma nth_error_flip_modes mask : forall modes i,
+  nth_error (flip_modes mask modes) i =
+  option_map (fun md => if nth i mask false then flip_mode md else md) (nth_error modes i).
+Proof.
+  induction mask as [|b bs IH]; intros modes i; simpl.
+  - destruct (nth_error modes i); destruct i; reflexivity.
+  - destruct modes as [|md ms]; simpl; [destruct i; reflexivity|].
+    destruct i; simpl; [destruct b; reflexivity|apply IH].
+Qed.
+
+Definition mirror_table (mask : list bool) (table : list (Z * list (list Q))) : list (Z * list (list Q)) :=
+  map (fun tl => (fst tl, map (negate_vals mask) (snd tl))) table.
+
+Lemma metric_column_mirror mask i table :
+  metric_column i (mirror_table mask table) =
+  if nth i mask false then neg_table (metric_column i table) else metric_column i table.
+Proof.
+  unfold metric_column, mirror_table, neg_table. rewrite !map_map. simpl.
+  destruct (nth i mask false) eqn:E.
+  - rewrite ?map_map. apply map_ext. intros [t rows]. simpl. f_equal. rewrite ?map_map.
+    apply map_ext. intro row. rewrite nth_negate_vals, E. reflexivity.
+  - apply map_ext. intros [t rows]. simpl. f_equal. rewrite ?map_map.
+    apply map_ext. intro row. rewrite nth_negate_vals, E. reflexivity.
+Qed.
+
+Lemma neg_table_involutive t : neg_table (neg_table t) = t.
+Proof.
+  unfold neg_table. rewrite map_map. simpl. rewrite <- (map_id t) at 2. apply map_ext. intros [k l]. simpl. f_equal.
+  rewrite map_map. rewrite <- (map_id l) at 2. apply map_ext. intro x. apply Qopp_opp_eq.
+Qed.
+
+Lemma neg_best_involutive b : neg_best (neg_best b) = b.
+Proof. destruct b as [t [v|]]; unfold neg_best; simpl; [rewrite Qopp_opp_eq|]; reflexivity. Qed.
+
+(* both directions of the single-metric mirror *)
+Lemma best_metric_flip md t :
+  best_metric_found (flip_mode md) (neg_table t) = option_map neg_best (best_metric_found md t).
+Proof.
+  destruct md; simpl.
+  - apply best_metric_mode_symmetry.
+  - pose proof (best_metric_mode_symmetry (neg_table t)) as H. rewrite neg_table_involutive in H. rewrite H.
+    destruct (best_metric_found Min (neg_table t)) as [b|]; simpl; [rewrite neg_best_involutive|]; reflexivity.
+Qed.
+
+(* best trial of the mirrored experiment = best trial of the original, for every metric index, every subset of flipped
+   metrics and every table of results; the reported best value is negated exactly when that metric was flipped *)
+Theorem tuner_best_config_mirror mask modes i table :
+  tuner_best_config (MList (flip_modes mask modes)) i (mirror_table mask table) =
+  option_map (fun b => if nth i mask false then neg_best b else b) (tuner_best_config (MList modes) i table).
+Proof.
+  unfold tuner_best_config. simpl. rewrite nth_error_flip_modes, metric_column_mirror.
+  destruct (nth_error modes i) as [md|]; simpl; [|reflexivity].
+  destruct (nth i mask false).
+  - apply best_metric_flip.
+  - destruct (best_metric_found md (metric_column i table)); reflexivity.
+Qed.
+
+Theorem tuner_best_config_mirror_str md i table :
+  tuner_best_config (MStr (flip_mode md)) i (mirror_table (repeat true (S i)) table) =
+  option_map neg_best (tuner_best_config (MStr md) i table).
+Proof.
+  unfold tuner_best_config. simpl resolve_mode. cbv iota. rewrite metric_column_mirror.
+  replace (nth i (repeat true (S i)) false) with true.
+  - apply best_metric_flip.
+  - symmetry. clear. induction i as [|i IH]; simpl; [reflexivity|exact IH].
+Qed.
+
+(* ---- RUSH candidate selection: ranking by the best fidelity value under the sign ------------------------------ *)
+From Coq Require Import Sorting.Sorted.
+
+Lemma Qplus_opp_leib (x y : Q) : - x + - y = - (x + y).
+Proof. destruct x as [a b], y as [c d]. unfold Qplus, Qopp. simpl. f_equal. ring. Qed.
+
+Lemma Qmult_opp_leib (x y : Q) : (- x) * y = - (x * y).
+Proof. destruct x as [a b], y as [c d]. unfold Qmult, Qopp. simpl. f_equal. ring. Qed.
+
+Lemma qsum_neg l : qsum (map Qopp l) = - qsum l.
+Proof.
+  unfold qsum. change 0 with (- 0) at 1. generalize 0 as acc.
+  induction l as [|x l IH]; intro acc; simpl; [reflexivity|]. rewrite Qplus_opp_leib. apply IH.
+Qed.
+
+Lemma qmean_neg l : qmean (map Qopp l) = - qmean l.
+Proof. unfold qmean, Qdiv. rewrite qsum_neg, map_length. apply Qmult_opp_leib. Qed.
+
+Definition neg_evals (ev : list (list Q)) : list (list Q) := map (map Qopp) ev.
+
+Lemma tl_reduced_neg ev : tl_reduced Max (neg_evals ev) = - tl_reduced Min ev.
+Proof.
+  unfold tl_reduced, neg_evals. rewrite map_map.
+  replace (map (fun x => qmean (map Qopp x)) ev) with (map Qopp (map qmean ev))
+    by (rewrite map_map; apply map_ext; intro; symmetry; apply qmean_neg).
+  rewrite agg_neg. destruct (agg Min (map qmean ev)); reflexivity.
+Qed.
+
+Section KeySort.
+  Definition kasc (y x : Z * Q) : bool := Qltb (snd y) (snd x).
+  Definition kdesc (y x : Z * Q) : bool := Qltb (snd x) (snd y).
+
+  Lemma insert_asc_keys_sorted x l :
+    StronglySorted (fun a b => snd a <= snd b) l -> StronglySorted (fun a b => snd a <= snd b) (insert_by kasc x l).
+  Proof.
+    induction 1 as [|y l Hs IH Hf]; simpl; [constructor; constructor|].
+    unfold kasc at 1. destruct (Qltb (snd y) (snd x)) eqn:E.
+    - apply Qltb_lt in E. constructor; [exact IH|]. rewrite Forall_forall in *. intros z Hz.
+      apply (Permutation_in _ (insert_by_perm kasc x l)) in Hz. destruct Hz as [<-|Hz]; [lra|apply Hf; exact Hz].
+    - assert (E' : snd x <= snd y). { apply Qnot_lt_le. intro H. apply Qltb_lt in H. congruence. }
+      constructor; [constructor; assumption|]. constructor; [exact E'|].
+      rewrite Forall_forall in *. intros z Hz. specialize (Hf z Hz). lra.
+  Qed.
+
+  Lemma sort_asc_keys_sorted l : StronglySorted (fun a b => snd a <= snd b) (stable_sort kasc l).
+  Proof. unfold stable_sort. induction l as [|x l IH]; simpl; [constructor|apply insert_asc_keys_sorted; exact IH]. Qed.
+
+  Lemma insert_desc_keys_sorted x l :
+    StronglySorted (fun a b => snd b <= snd a) l -> StronglySorted (fun a b => snd b <= snd a) (insert_by kdesc x l).
+  Proof.
+    induction 1 as [|y l Hs IH Hf]; simpl; [constructor; constructor|].
+    unfold kdesc at 1. destruct (Qltb (snd x) (snd y)) eqn:E.
+    - apply Qltb_lt in E. constructor; [exact IH|]. rewrite Forall_forall in *. intros z Hz.
+      apply (Permutation_in _ (insert_by_perm kdesc x l)) in Hz. destruct Hz as [<-|Hz]; [lra|apply Hf; exact Hz].
+    - assert (E' : snd y <= snd x). { apply Qnot_lt_le. intro H. apply Qltb_lt in H. congruence. }
+      constructor; [constructor; assumption|]. constructor; [exact E'|].
+      rewrite Forall_forall in *. intros z Hz. specialize (Hf z Hz). lra.
+  Qed.
+
+  Lemma sort_desc_keys_sorted l : StronglySorted (fun a b => snd b <= snd a) (stable_sort kdesc l).
+  Proof. unfold stable_sort. induction l as [|x l IH]; simpl; [constructor|apply insert_desc_keys_sorted; exact IH]. Qed.
+
+  (* pairwise different keys: an ascending arrangement is unique *)
+  Definition distinct_keys (l : list (Z * Q)) : Prop := forall a b, In a l -> In b l -> snd a == snd b -> a = b.
+
+  Lemma sorted_perm_unique l1 : forall l2, distinct_keys l1 ->
+    StronglySorted (fun a b => snd a <= snd b) l1 -> StronglySorted (fun a b => snd a <= snd b) l2 ->
+    Permutation l1 l2 -> l1 = l2.
+  Proof.
+    induction l1 as [|x l1 IH]; intros l2 Hd S1 S2 P.
+    - apply Permutation_nil in P. subst. reflexivity.
+    - destruct l2 as [|y l2]; [apply Permutation_sym, Permutation_nil in P; discriminate|].
+      inversion S1 as [|? ? S1' F1]; subst. inversion S2 as [|? ? S2' F2]; subst. rewrite Forall_forall in F1, F2.
+      assert (Hin1 : In y (x :: l1)) by (eapply Permutation_in; [apply Permutation_sym; exact P|left; reflexivity]).
+      assert (Hin2 : In x (y :: l2)) by (eapply Permutation_in; [exact P|left; reflexivity]).
+      assert (E : x = y).
+      { destruct Hin1 as [->|Hy]; [reflexivity|]. destruct Hin2 as [->|Hx]; [reflexivity|].
+        apply Hd; [left; reflexivity|right; exact Hy|]. specialize (F1 y Hy). specialize (F2 x Hx). lra. }
+      subst y. f_equal. apply IH; try assumption.
+      + intros a b Ha Hb. apply Hd; right; assumption.
+      + eapply Permutation_cons_inv. exact P.
+  Qed.
+
+  Lemma rev_desc_is_asc l : distinct_keys l -> rev (stable_sort kdesc l) = stable_sort kasc l.
+  Proof.
+    intro Hd. apply sorted_perm_unique.
+    - intros a b Ha Hb. apply Hd.
+      + apply (Permutation_in _ (stable_sort_perm kdesc l)). apply in_rev. exact Ha.
+      + apply (Permutation_in _ (stable_sort_perm kdesc l)). apply in_rev. exact Hb.
+    - apply (ssorted_rev_gen (fun a b => snd b <= snd a)). apply sort_desc_keys_sorted.
+    - apply sort_asc_keys_sorted.
+    - eapply Permutation_trans; [apply Permutation_sym, Permutation_rev|].
+      eapply Permutation_trans; [apply stable_sort_perm|apply Permutation_sym, stable_sort_perm].
+  Qed.
+End KeySort.
+
+(* RUSH candidates of the mirrored experiment (mode max on the negated offline evaluations) = candidates of the
+   original, whenever the seed-averaged best-fidelity values of the configurations are pairwise different *)
+Theorem tl_topk_mode_symmetry k evs :
+  distinct_keys (map (fun e => (fst e, tl_reduced Min (snd e))) evs) ->
+  tl_topk Max k (map (fun e => (fst e, neg_evals (snd e))) evs) = tl_topk Min k evs.
+Proof.
+  intro Hd. unfold tl_topk. f_equal. rewrite map_map. simpl.
+  set (keyed := map (fun e => (fst e, tl_reduced Min (snd e))) evs) in *.
+  replace (map (fun x : Z * list (list Q) => (fst x, tl_reduced Max (neg_evals (snd x)))) evs) with (map neg_pair keyed).
+  - fold kasc. rewrite (stable_sort_map neg_pair kdesc kasc keyed).
+    + rewrite <- map_rev, map_fst_neg_pair. rewrite (rev_desc_is_asc keyed Hd). reflexivity.
+    + intros y x. unfold kasc, kdesc. simpl. apply Qltb_neg.
+  - unfold keyed. rewrite map_map. apply map_ext. intro e. unfold neg_pair. simpl. rewrite tl_reduced_neg. reflexivity.
+Qed.
+
+(* what the selection is: the k configurations with the smallest (min) best-fidelity value, in ascending order *)
+Theorem tl_topk_min_sorted k evs :
+  tl_topk Min k evs = firstn k (map fst (stable_sort kasc (map (fun e => (fst e, tl_reduced Min (snd e))) evs))) /\
+  StronglySorted (fun a b => snd a <= snd b) (stable_sort kasc (map (fun e => (fst e, tl_reduced Min (snd e))) evs)).
+Proof. split; [reflexivity|apply sort_asc_keys_sorted]. Qed.
